@@ -89,10 +89,10 @@ PROPS = {
                           "(sorted, completed-first, length for every n, top-n optimality), score = best per-step mean ignoring NaN, NaN never "
                           "COMPLETED, ranking symmetric under (max, s) <-> (min, -s) incl. ties and infinities, Hyperband's promotion winner symmetric; WHOLE searches "
                           "symmetric (Ktm/Symmetry.lean): two algorithm records that mirror each other answer every request list identically and end in "
-                          "mirrored states - for any tuners, interleaving and outcomes; random and grid search are score-blind, hence symmetric.",
+                          "mirrored states - for any tuners, interleaving and outcomes; random search, grid search and the whole Hyperband oracle are instances.",
             "level_note": CORE_NOTE + " Ranking and scoring run in the model (Ranking.bestTrials, Metrics.bestValue over exact extended rationals) and "
-                          "are compared with get_best_trials / trial.score after random histories. Whole-search symmetry is proved for every pair of mirrored algorithm records, with random and grid search "
-                          "as instances; for Hyperband (only its promotion winner is proved symmetric) and the Bayesian GP (not modelled) it is decided by the "
+                          "are compared with get_best_trials / trial.score after random histories. Whole-search symmetry is proved for every pair of mirrored algorithm records, with random search, grid search "
+                          "and Hyperband as instances; for the Bayesian GP (not modelled) it is decided by the "
                           "`symmetry` suite: each scenario is run twice on the implementation, (max, s) and (min, -s), and the complete traces must be identical "
                           "(incl. focused Bayesian runs with trials in flight during the GP phase).",
             "assumptions": ["sklearn GPR / scipy optimiser: same inputs => same outputs"]},
